@@ -218,13 +218,27 @@ def enum_is(ex, v, variant):
     raise Unsupported("variant test %s on %s" % (variant, v.ty))
 
 
+def _payload_type(ty, variant):
+    ty = (ty or "").strip()
+    mm = re.match(r"^(?:std::option::|core::option::)?Option<(.*)>$", ty)
+    if mm and variant == "Some":
+        return mm.group(1)
+    mm = re.match(r"^(?:std::result::|core::result::)?Result<(.*)>$", ty)
+    if mm:
+        from .mir import split_top
+        parts = split_top(mm.group(1))
+        if len(parts) == 2:
+            return parts[0] if variant == "Ok" else parts[1]
+    return None
+
+
 def payload(ex, v, variant, idx=0):
     if isinstance(v, Opaque):
         return ex.step_get(ex.step_get(v, ("dc", variant)), ("f", idx, None))
     p = v.payload.get(variant)
     if p is None:
-        p = v.payload[variant] = Opaque("%s!%d" % (variant, next(ex.fresh_counter)), None)
-    return ex.step_get(p, ("f", idx, None))
+        p = v.payload[variant] = Agg("variant", variant, [])
+    return ex.step_get(p, ("f", idx, _payload_type(v.ty, variant) if idx == 0 else None))
 
 
 def as_enum(ex, v, ty):
@@ -515,7 +529,7 @@ def m_pin_identity(ex, st, callee, args, dty, m):
     return args[0]
 
 
-@model(r"<Arc<.*> as Deref>::deref$|<Box<.*> as Deref(?:Mut)?>::deref(?:_mut)?$|<Arc<.*> as Clone>::clone$|<Arc<.*> as AsRef<.*>>::as_ref$")
+@model(r"<(?:ahash::)?AHash(?:Map|Set)<.*> as Deref(?:Mut)?>::deref(?:_mut)?$|<Arc<.*> as Deref>::deref$|<Box<.*> as Deref(?:Mut)?>::deref(?:_mut)?$|<Arc<.*> as Clone>::clone$|<Arc<.*> as AsRef<.*>>::as_ref$")
 def m_arc_deref(ex, st, callee, args, dty, m):
     return args[0]
 
@@ -540,6 +554,8 @@ def m_poll(ex, st, callee, args, dty, m):
     if isinstance(fut, Agg) and fut.name == "LockFuture":
         target = fut.fields[0]
         return EnumV(dty or "Poll", "Ready", None, {"Ready": Agg("variant", "Ready", [Agg("struct", "Guard", [target, fut.fields[1]])])})
+    if isinstance(fut, Agg) and fut.name == "ReadyFuture":
+        return EnumV(dty or "Poll", "Ready", None, {"Ready": Agg("variant", "Ready", [fut.fields[0]])})
     if isinstance(fut, EnumV) and fut.upvars is not None and getattr(fut, "ty", "").startswith("coroutine:"):
         body = ex.coroutine_bodies.get(fut.ty)
         if body is not None:
@@ -737,3 +753,121 @@ def m_vec_extend(ex, st, callee, args, dty, m):
     v.arr = z3.Lambda([k], z3.If(z3.ULT(k, v.len.bv), z3.Select(v.arr, k), z3.Select(o.arr, k - v.len.bv)))
     v.len = I(z3.simplify(v.len.bv + o.len.bv))
     return UNIT
+
+
+@model(MAP_RE + r"::get_mut::<.*>$")
+def m_map_get_mut(ex, st, callee, args, dty, m):
+    mv = as_map(ex, args[0])
+    if mv.entries is None:
+        return NotImplemented
+    k = args[1]
+    # reference INTO the map entry so that writes are visible
+    base = args[0]
+    c, p = base.cell, base.path
+    vv = ex.get_path(c, p)
+    while isinstance(vv, Ref):
+        c, p = vv.cell, vv.path
+        vv = ex.get_path(c, p)
+    outs = []
+    none_cond = []
+    for i, (pres, ek, ev) in enumerate(mv.entries):
+        cnd = z3.simplify(z3.And(pres, key_eq(ex, ek, k)))
+        none_cond.append(z3.Not(cnd))
+        outs.append((cnd, mk_some(dty, Ref(Cell(ev), (), True))))
+    outs.append((z3.And(*none_cond) if none_cond else z3.BoolVal(True), mk_none(dty)))
+    return ("__fork__", outs)
+
+
+# ---------------------------------------------------------------- iterator adaptors with closures over concrete-length sequences
+from . import mir as _MIR
+_DRIVER_COUNT = [0]
+
+
+def _seq_item_refs(ex, it):
+    """element references of a SeqIter (remaining elements)"""
+    it = deref(ex, it)
+    if not (isinstance(it, Agg) and it.name == "SeqIter"):
+        return None
+    seq_ref, pos = it.fields
+    seq = deref(ex, seq_ref)
+    if not isinstance(seq, Seq):
+        return None
+    c, p = (seq_ref.cell, seq_ref.path) if isinstance(seq_ref, Ref) else (Cell(seq), ())
+    v = ex.get_path(c, p)
+    while isinstance(v, Ref):
+        c, p = v.cell, v.path
+        v = ex.get_path(c, p)
+    start = as_int(pos)
+    it.fields[1] = u64(len(seq.items))
+    return [Ref(c, p + (("i", u64(i)),), getattr(seq_ref, "mut", False)) for i in range(start, len(seq.items))]
+
+
+def iter_driver(ex, kind, items, closure, dty):
+    """synthetic MIR body that applies `closure` to each item in order (for_each / all / any / position)"""
+    cbody = ex.closure_body(closure)
+    if cbody is None:
+        return NotImplemented
+    by_ref = cbody.args[0][1].lstrip().startswith("&")
+    n = len(items)
+    _DRIVER_COUNT[0] += 1
+    b = _MIR.Body("__iter_%s_%d" % (kind, _DRIVER_COUNT[0]), "synthetic")
+    b.args = [("_1", "env")] + [("_%d" % (i + 2), "item") for i in range(n)]
+    b.locals = dict(b.args)
+    b.locals["_0"] = dty or "()"
+    res = "_%d" % (n + 2)
+    b.locals[res] = "bool" if kind in ("all", "any", "position") else "()"
+    token = "__closure_call__%d" % _DRIVER_COUNT[0]
+    ex.models = [(re.compile(re.escape(token) + "$"), lambda ex_, st, callee, args, dt, mm, cb=cbody: ("__inline__", cb, args))] + list(ex.models)
+
+    def blk(name):
+        bb = _MIR.Block(name, False)
+        b.blocks[name] = bb
+        return bb
+    for i in range(n):
+        bb = blk("bb%d" % (2 * i))
+        bb.term = ("call", ("local", res), token, [("copy", ("local", "_1")), ("copy", ("local", "_%d" % (i + 2)))], {"return": "bb%d" % (2 * i + 1)})
+        chk = blk("bb%d" % (2 * i + 1))
+        nxt = "bb%d" % (2 * i + 2)
+        if kind == "for_each":
+            chk.term = ("goto", nxt)
+        elif kind == "all":
+            chk.term = ("switch", ("copy", ("local", res)), [("0", "bbF"), ("otherwise", nxt)])
+        elif kind == "any":
+            chk.term = ("switch", ("copy", ("local", res)), [("0", nxt), ("otherwise", "bbT")])
+        elif kind == "position":
+            chk.term = ("switch", ("copy", ("local", res)), [("0", nxt), ("otherwise", "bbP%d" % i)])
+            pb = blk("bbP%d" % i)
+            pb.stmts.append(("assign", ("local", "_0"), ("variant", "Option::Some", [("const", "%d_usize" % i)])))
+            pb.term = ("return",)
+    end = blk("bb%d" % (2 * n))
+    if kind == "for_each":
+        end.stmts.append(("assign", ("local", "_0"), ("use", ("const", "()"))))
+    elif kind == "all":
+        end.stmts.append(("assign", ("local", "_0"), ("use", ("const", "true"))))
+    elif kind == "any":
+        end.stmts.append(("assign", ("local", "_0"), ("use", ("const", "false"))))
+    elif kind == "position":
+        end.stmts.append(("assign", ("local", "_0"), ("variant", "Option::None", [])))
+    end.term = ("return",)
+    if kind == "all":
+        f = blk("bbF")
+        f.stmts.append(("assign", ("local", "_0"), ("use", ("const", "false"))))
+        f.term = ("return",)
+    if kind == "any":
+        t = blk("bbT")
+        t.stmts.append(("assign", ("local", "_0"), ("use", ("const", "true"))))
+        t.term = ("return",)
+    env = closure
+    if by_ref and not isinstance(closure, Ref):
+        env = Ref(Cell(closure), (), True)
+    if not by_ref and isinstance(closure, Ref):
+        env = deref(ex, closure)
+    return ("__inline__", b, [env] + list(items))
+
+
+@model(r"<(?:std|core)::slice::Iter(?:Mut)?<'_, .*> as Iterator>::(for_each|all|any|position)::<.*>$")
+def m_iter_adaptor(ex, st, callee, args, dty, m):
+    items = _seq_item_refs(ex, args[0])
+    if items is None:
+        return NotImplemented
+    return iter_driver(ex, m.group(1), items, args[1], dty)
